@@ -9,7 +9,7 @@ ENGINE2_FILES = ["zz_verif_engine2_test.go", "zz_verif_engine2_monitor_test.go",
 THEOREMS_C15E = ["Slock.C15E.reply_is_before_lock", "Slock.C15E.reply_is_before_unlock", "Slock.C15E.queued_grant_reply_is_before",
                  "Slock.C15E.refused_unchanged_lock", "Slock.C15E.refused_unchanged_unlock", "Slock.C15E.value_update_is_processFrame",
                  "Slock.C15E.relock_value", "Slock.C15E.update_value", "Slock.C15E.unlock_value", "Slock.C15E.p0b_reply_carries_no_value"]
-THEOREMS_C17R = ["Slock.C17R.reachable_refcounts", "Slock.C17R.drain_partial"]
+THEOREMS_C17R = ["Slock.C17R.reachable_refcounts", "Slock.C17R.keycount_exact", "Slock.C17R.waiter_has_no_expiry_entry", "Slock.C17R.drain_partial"]
 THEOREMS_C10 = ["Slock.C10.gate_lock", "Slock.C10.gate_unlock", "Slock.C10.no_journal_off_leader", "Slock.C10.follower_expiry_deferred",
                 "Slock.C10.follower_expiry_ended_only_after", "Slock.C10.follower_defers_again"]
 
@@ -21,7 +21,7 @@ def classify_engine2(op, impl):
     return None
 
 
-def run_engine2(ctx, prefixes, n_quick=400, n_thorough=6000, ops=40, extra=None):
+def run_engine2(ctx, prefixes, n_quick=3000, n_thorough=40000, ops=40, extra=None):
     """Build the stage-2 harness, run it, compare with the Lean driver (incl. the stage-1 cross-check: no ABS-MISMATCH may appear),
     collect the monitors whose signature starts with one of `prefixes`."""
     exe = ctx.build_harness("server", only=ENGINE2_FILES)
